@@ -2,7 +2,7 @@
 REG = dict(
     engine='E1-enum',
     technique='exhaustive enumeration of divergence mechanism x program position x sandbox mode, each run as a real CLI process under an address-space limit and a wall-clock cap',
-    text="A finite family per way of not finishing: 13 never-terminating loop/recursion forms (while, for, self/mutual/closure/method/callback recursion, endless printing, read_line on an open stdin), 9 value-growth forms whose size doubles or nests per iteration (string, list, Option, tuple, dict; by loop and by recursion), every public prelude function and method called on large arguments (256 KiB string, 65k-element list, i64 extremes; does one interpreter step stay bounded?), recursion to every depth 994..1006 (quick) / 985..1015 (thorough) around the 1 000-frame limit (plus 10, 100, 900, 1 100, 2 000) and a ladder of values nested 10..1 000 (quick) / 10..100 000 (thorough) deep that are then dropped, printed, compared or shown. Each is placed at top level, in a function, closure, method and test body and run with `playground-run` and `sandboxed-test` (growth forms: reduced cross in quick). Oracle: the process exits by itself with status 0 and a JSON result (value, error, tick- or stack-limit error): no signal, no panic (101), no allocation failure under RLIMIT_AS, not the wall cap (60 s, 180 s for the memory-growing families; a timed-out case is re-run with 3x the cap before it counts).",
+    text="A finite family per way of not finishing: 13 never-terminating loop/recursion forms (while, for, self/mutual/closure/method/callback recursion, endless printing, read_line on an open stdin), 6 sequences of two or three never-ending evaluations in one sandboxed run (tests then top level; several tests of one function), 9 value-growth forms whose size doubles or nests per iteration (string, list, Option, tuple, dict; by loop and by recursion), every public prelude function and method called on large arguments (256 KiB string, 65k-element list, i64 extremes; does one interpreter step stay bounded?), recursion to every depth 994..1006 (quick) / 985..1015 (thorough) around the 1 000-frame limit (plus 10, 100, 900, 1 100, 2 000) and a ladder of values nested 10..1 000 (quick) / 10..100 000 (thorough) deep that are then dropped, printed, compared or shown. Each is placed at top level, in a function, closure, method and test body and run with `playground-run` and `sandboxed-test` (growth forms: reduced cross in quick). Oracle: the process exits by itself with status 0 and a JSON result (value, error, tick- or stack-limit error): no signal, no panic (101), no allocation failure under RLIMIT_AS, not the wall cap (60 s, 180 s for the memory-growing families; a timed-out case is re-run with 3x the cap before it counts).",
     note='Limits are the fixed sandbox limits (100 000 ticks, 1 000 frames). Address space is limited to 1 GiB; for programs that are unbounded by construction (the growth family) any limit is fair, an allocation failure of a bounded program is re-run under 4 GiB before it counts. Re-runs go two at a time rather than strictly alone. Only the listed mechanisms are covered, not their compositions.',
     design_ref='DESIGN.md §6 C25',
 )
@@ -193,6 +193,21 @@ def run(ctx):
         for pos in POSITIONS:
             for mode in MODES:
                 add(name, defs, body, pos, mode, hold=hold, group="loops")
+    # sequences: a second never-ending evaluation in the same sandboxed run, after the first one was stopped by the budget
+    # (the budget has to hold for everything the run evaluates, not just for the first thing that exhausts it)
+    seqs = [
+        ("sequence: looping test, then a looping top-level expression", "playground-run", "test t {\n  while True {}\n}\nwhile True {}\n", None),
+        ("sequence: two looping tests, then a value", "playground-run", "test t {\n  while True {}\n}\ntest u {\n  while True {}\n}\n1\n", None),
+        ("sequence: recursing test, then a looping top-level expression", "playground-run", "fun rec_f() { rec_f() }\ntest t {\n  rec_f()\n}\nwhile True {}\n", None),
+        ("sequence: two looping tests of one function", "sandboxed-test", "fun spin() {\n  while True {}\n}\ntest t {\n  spin()\n}\ntest u {\n  spin()\n}\n", "fun spin"),
+        ("sequence: three looping tests of one function", "sandboxed-test", "fun spin() {\n  while True {}\n}\ntest t {\n  spin()\n}\ntest u {\n  spin()\n}\ntest v {\n  spin()\n}\n", "fun spin"),
+        ("sequence: a recursing and a looping test of one function", "sandboxed-test", "fun spin(r: Bool) {\n  if r { spin(r) } else { while True {} }\n}\ntest t {\n  spin(True)\n}\ntest u {\n  spin(False)\n}\n", "fun spin"),
+    ]
+    for mech, mode, src, anchor in seqs:
+        if only and only not in mech:
+            continue
+        cases.append({"mech": mech, "pos": "top" if mode == "playground-run" else "fun", "mode": mode, "src": src, "hold": False, "heavy": False, "unbounded": False, "group": "loops",
+                      "offset": None if anchor is None else src.index(anchor) + 5})
     for name, defs, body in growth():
         for pos in POSITIONS:
             for mode in MODES:
@@ -236,7 +251,7 @@ def run(ctx):
         if c["mode"] == "playground-run":
             args = ["playground-run", "prog.gdn"]
         else:
-            args = ["sandboxed-test", "prog.gdn", str(c["src"].index("test t {") + 9)]
+            args = ["sandboxed-test", "prog.gdn", str(c["offset"] if c.get("offset") is not None else c["src"].index("test t {") + 9)]
         if c["hold"]:
             r = clijobs.run(ctx.binary, args, cwd=d, hold_stdin=True, t_hold=3.0, feed=b"FED_LINE\n", timeout=cap, as_kib=limit_kib)
         else:
